@@ -24,6 +24,7 @@ import (
 //   (2 1 markFailed #p)            zaptest.TestingWriter
 //   (2 2 en (#p ..))               zapio.Writer
 //   (2 3 size (op ..))             zapcore.BufferedWriteSyncer over an accepting sink
+//   (2 4 size (fop ..))            zapcore.BufferedWriteSyncer over a scripted sink (c13_bwsfault.go)
 //   (3 ((k ..) ..) (tid ..) var)   goroutines hammering Lock(sink)
 //   (4 mode root (step ..) (((h k) ..) ..) (tid ..))
 //                                  several handles onto one sink (c13_handles.go)
@@ -812,6 +813,9 @@ func c13(c *Ctx) {
 
 	// ---- 6. several handles onto one sink (c13_handles.go)
 	c13handleCases(c)
+
+	// ---- 7. BufferedWriteSyncer over a scripted (faulty) sink (c13_bwsfault.go)
+	c13bwsFaultCases(c, r.Fork())
 }
 
 func init() { registry["C13"] = c13 }
